@@ -26,16 +26,21 @@ func checkC04(c *Ctx) {
 	}
 	// the descriptor's verifier parses its own certificate data
 	if fn := c.Fn("A.bind", "efi/signature.(*EFIVariableAuthentication2).Verify"); fn != nil {
+		dv := c.deepViewOf(fn, 3)
+		calls := dv.callsTo(M + "/pkcs7.ParsePKCS7")
 		ok := false
-		instrsOf(fn, func(i ssa.Instruction) {
-			if call, isC := i.(*ssa.Call); isC && ir.CallID(call) == M+"/pkcs7.ParsePKCS7" {
-				sl := c.sliceOf(call.Call.Args[0])
-				if sl[fn.Params[0]] && ir.HasField(sl, M+"/efi/signature.WinCertificateUEFIGUID.CertData") {
-					ok = true
-				}
+		for _, di := range calls {
+			call := di.i.(*ssa.Call)
+			sl := dv.sliceDeep(call.Call.Args[0], di.fr)
+			if sl[fn.Params[0]] && ir.HasField(sl, M+"/efi/signature.WinCertificateUEFIGUID.CertData") {
+				ok = true
 			}
-		})
-		c.R.Check(ok, "A.bind", name(fn), "blob<-CertData", c.Pos(fn.Pos()), "the blob that is verified is the descriptor's own certificate data", "ParsePKCS7 is not applied to e.AuthInfo.CertData")
+		}
+		if len(calls) == 0 {
+			c.R.Infof("A.bind", name(fn), "blob<-CertData", c.Pos(fn.Pos()), "not decided for this shape: no call of pkcs7.ParsePKCS7 in the view of the descriptor's verifier")
+		} else {
+			c.R.Check(ok, "A.bind", name(fn), "blob<-CertData", c.Pos(fn.Pos()), "the blob that is verified is the descriptor's own certificate data", "ParsePKCS7 is not applied to e.AuthInfo.CertData")
+		}
 	}
 	in := func(fn *ssa.Function) bool {
 		return fn.Pkg != nil && fn.Pkg.Pkg.Path() == M+"/pkcs7" || fn.Parent() != nil && fn.Parent().Pkg != nil && fn.Parent().Pkg.Pkg.Path() == M+"/pkcs7"
@@ -48,31 +53,45 @@ func checkC04(c *Ctx) {
 	c.R.Floor("A-p4.nil", 2)
 }
 
-// sameSigner: in the top-level verifier, the repo calls that carry the facts are
-// applied to one and the same signer value.
+// sameSigner: in the top-level verifier (and the helpers it calls), identity
+// check, content binding and signature check use one and the same signer
+// entry: every signerinfo method receiver and every base of a load of a
+// signerinfo field resolves to the same value.
 func (c *Ctx) sameSigner(fn *ssa.Function) {
-	var recvs []ssa.Value
-	var sites []ssa.Instruction
-	instrsOf(fn, func(i ssa.Instruction) {
-		call, ok := i.(*ssa.Call)
-		if !ok {
-			return
+	dv := c.deepViewOf(fn, 3)
+	type use struct {
+		obj dval
+		at  ssa.Instruction
+	}
+	var uses []use
+	siType := M + "/pkcs7.signerinfo"
+	for _, di := range dv.order {
+		switch x := di.i.(type) {
+		case *ssa.Call:
+			callee := ir.Callee(x)
+			if callee == nil || !c.P.InLib(callee) || callee.Signature.Recv() == nil || ir.NamedTypeID(callee.Signature.Recv().Type()) != siType {
+				continue
+			}
+			uses = append(uses, use{dv.objectOf(x.Call.Args[0], di.fr), x})
+		case *ssa.FieldAddr:
+			if ir.NamedTypeID(x.X.Type()) != siType {
+				continue
+			}
+			switch ir.FieldOf(x).Name() {
+			case "AuthenticatedAttributes", "EncryptedDigest", "IssuerAndSerialnumber":
+				uses = append(uses, use{dv.objectOf(x.X, di.fr), x})
+			}
 		}
-		callee := ir.Callee(call)
-		if callee == nil || !c.P.InLib(callee) || callee.Signature.Recv() == nil {
-			return
-		}
-		if ir.NamedTypeID(callee.Signature.Recv().Type()) == M+"/pkcs7.signerinfo" {
-			recvs = append(recvs, call.Call.Args[0])
-			sites = append(sites, i)
-		}
-	})
-	ok := len(recvs) > 0
-	det := "no call on a signer value found"
-	for k := range recvs {
-		if recvs[k] != recvs[0] {
+	}
+	if len(uses) == 0 {
+		c.R.Infof("A.same-signer", name(fn), "signer-identity", c.Pos(fn.Pos()), "not decided for this shape: no use of a signer entry found in the view of the verifier")
+		return
+	}
+	ok, det := true, ""
+	for _, u := range uses[1:] {
+		if !u.obj.same(uses[0].obj) {
 			ok = false
-			det = "the call at " + c.IPos(sites[k]) + " is applied to a different signer value than the one at " + c.IPos(sites[0])
+			det = "the use at " + c.IPos(u.at) + " is applied to a different signer value than the one at " + c.IPos(uses[0].at)
 		}
 	}
 	c.R.Check(ok, "A.same-signer", name(fn), "signer-identity", c.Pos(fn.Pos()), "identity check, content binding and signature check are applied to the same signer entry", det)
